@@ -557,12 +557,24 @@ Proof.
   - exists []. rewrite app_nil_r. reflexivity.
   - destruct (IH (notify_trig s t)) as [x Hx].
     assert (Hy : exists y, st_queue (notify_trig s t) = st_queue s ++ y).
-    { unfold notify_trig. apply (fold_wake_prefix (subs_of t (st_subs s))). }
+    { unfold notify_trig.
+      destruct (fold_wake_prefix (subs_of t (st_subs s))
+                  (mkState (st_val s) (st_keys s) (subs_set t [] (st_subs s)) (st_srcs s) (st_queue s)
+                           (st_wakes s) (st_runs s) (st_spos s) (st_last s))) as [y Hy].
+      exists y. exact Hy. }
     destruct Hy as [y Hy]. exists (y ++ x). rewrite Hx, Hy, app_assoc. reflexivity.
 Qed.
 
 Lemma notify_all_app s ts1 ts2 : notify_all s (ts1 ++ ts2) = notify_all (notify_all s ts1) ts2.
 Proof. unfold notify_all. apply fold_left_app. Qed.
+
+Lemma nth_error_firstn_lt {A} (l : list A) : forall m j, j < m -> nth_error (firstn m l) j = nth_error l j.
+Proof.
+  induction l as [|x l IH]; intros m j Hj.
+  - rewrite firstn_nil. reflexivity.
+  - destruct m as [|m]; [lia|]. destruct j as [|j]; cbn [firstn nth_error]; [reflexivity|].
+    apply IH. lia.
+Qed.
 
 (** if the first notified trigger that [e1] subscribes to comes strictly before the first one
     of [e2], then [e1] is queued before [e2] *)
@@ -580,14 +592,14 @@ Proof.
   destruct (notify_all_spec (firstn (S i1) ts) s) as [_ [_ [Cq _]]].
   assert (In1 : In e1 (st_queue s1)).
   { apply Cq. right. exists t1. split; [|exact H1].
-    apply (nth_error_In (firstn (S i1) ts) i1). rewrite nth_error_firstn; [exact Hn | lia]. }
+    apply (nth_error_In (firstn (S i1) ts) i1). rewrite nth_error_firstn_lt; [exact Hn | lia]. }
   assert (Nin2 : ~ In e2 (st_queue s1)).
   { intros H. apply Cq in H. rewrite Hq in H. destruct H as [[]|[t [Ht Hs]]].
     apply In_nth_error in Ht. destruct Ht as [j Hj].
     assert (j < S i1).
     { assert (Hl : j < length (firstn (S i1) ts)) by (apply nth_error_Some; congruence).
       rewrite firstn_length in Hl. lia. }
-    rewrite nth_error_firstn in Hj by lia. apply (H2 j t); [lia | exact Hj | exact Hs]. }
+    rewrite nth_error_firstn_lt in Hj by lia. apply (H2 j t); [lia | exact Hj | exact Hs]. }
   exists (st_queue s1), extra. repeat split; auto.
   apply in_app_iff in Hin. destruct Hin as [Hin|Hin]; [contradiction | exact Hin].
 Qed.
@@ -627,4 +639,29 @@ Proof.
   destruct P2 as [i2 P2].
   destruct (ancestors_before_descendants p r1 r2 _ _ P1 P2 ltac:(lia)) as [_ Hs].
   apply (earlier_position_queued_first n s WField p e1 e2 r1 r2 (length r1) i2); auto.
+Qed.
+
+(** Patch::patch notifies triggers_for_path of every changed leaf: it wakes exactly the
+    effects that read a field related to one of the changed paths *)
+Theorem patch_wakes_exactly_related n s ps e rs :
+  consistent n s -> st_queue s = [] -> reads s e rs ->
+  (In e (st_queue (notify_all s (concat (map triggers_for_path ps)))) <->
+   exists p r, In p ps /\ In r rs /\ wakes p r = true).
+Proof.
+  intros Hc Hq Hr. rewrite (notify_all_wakes n s _ e Hc Hq). split.
+  - intros [t [Ht Hs]]. apply in_concat_map in Ht. destruct Ht as [p [Hp Ht]].
+    apply Hr in Hs. destruct Hs as [r [Hin Htr]]. exists p, r. repeat split; auto.
+    unfold wakes. apply wakes_k_spec. exists t. split; assumption.
+  - intros [p [r [Hp [Hin Hw]]]]. unfold wakes in Hw. apply wakes_k_spec in Hw. destruct Hw as [t [Ht Htr]].
+    exists t. split; [apply in_concat_map; exists p; split; assumption|].
+    apply Hr. exists r. split; assumption.
+Qed.
+
+(** an effect whose last run read nothing from the store (chain cut short: a removed key, a
+    None, a missing index) is woken by no write at all: it has been dropped *)
+Corollary blocked_reader_never_woken n s k p e :
+  consistent n s -> st_queue s = [] -> reads s e [] -> ~ In e (st_queue (notify_all s (notified k p))).
+Proof.
+  intros Hc Hq Hr H. apply (write_wakes_exactly_related n s k p e [] Hc Hq Hr) in H.
+  destruct H as [r [[] _]].
 Qed.
